@@ -163,6 +163,12 @@ theorem er_clean_blocks (bs : Blocks) (h : cleanBlocks bs) : erBlocks bs = bs :=
   | cons b r => simp only [erBlocks]; rw [er_clean_block b h.1, er_clean_blocks r h.2]
 end
 
+theorem regsAt_all_reg (matched : List (Nat × String)) (i : Nat) : ∀ s ∈ regsAt matched i, isReg s = true := by
+  intro s hs
+  simp only [regsAt, List.mem_map] at hs
+  obtain ⟨p, _, rfl⟩ := hs
+  rfl
+
 theorem er_insertMatched (matched : List (Nat × String)) : (i : Nat) → (m : Block) → cleanBlock m →
     erBlock (insertMatched matched i m) = m
   | _, .nil, _ => rfl
@@ -172,9 +178,7 @@ theorem er_insertMatched (matched : List (Nat × String)) : (i : Nat) → (m : B
     have hreg : isReg s = false := by
       cases s <;> first | rfl | (simp [cleanBlock, cleanStmt] at h)
     unfold insertMatched
-    cases hf : matched.find? (fun p => p.1 = i) with
-    | none => simp only; rw [erBlock_cons_nonreg _ _ hreg, hs, hr]
-    | some p => simp only; rw [erBlock_cons_nonreg _ _ hreg, hs]; simp only [erBlock]; rw [hr]
+    rw [erBlock_cons_nonreg _ _ hreg, hs, er_prepend _ _ (regsAt_all_reg matched i), hr]
 
 theorem allDecorated_prepend (ss : List Stmt) (k : Block) (h : ∀ s ∈ ss, isReg s = true) (hk : allDecoratedB k) :
     allDecoratedB (prepend ss k) := by
